@@ -72,7 +72,11 @@ type Env struct {
 	// load-error fault: the next loader call of this operation fails
 	FailLoad   bool
 	LoadFailed bool
-	hash       uint64
+	// load-panic fault: the next loader call of this operation panics
+	PanicLoad    bool
+	LoadPanicked bool
+	CutOff       bool // wound up early because the race oracle had already fired
+	hash         uint64
 }
 
 const (
@@ -226,6 +230,16 @@ func (m *lockModel) release(lock int, write bool, t int32) {
 	}
 }
 
+// anyHeld reports whether some modelled lock is held (read or write).
+func (m *lockModel) anyHeld() bool {
+	for _, s := range m.state {
+		if s.writer != -1 || len(s.readers) > 0 {
+			return true
+		}
+	}
+	return false
+}
+
 func (m *lockModel) anyWriter() bool {
 	for _, s := range m.state {
 		if s.writer >= 0 {
@@ -313,6 +327,10 @@ type Sim struct {
 	// does not model (a channel, a Cond, a WaitGroup introduced by an edit): from
 	// then on two tasks may physically run at once for short stretches, and the
 	// caller of a hook is identified by its goroutine id instead of by `current`.
+	// cutoff: the race oracle has already fired in this run; operations still in
+	// progress are wound up at their next navigator call or function entry so
+	// that a racing loop does not flood the detector's log
+	cutoff   atomic.Bool
 	degraded atomic.Bool
 	// what the scheduler is currently waiting for (watchdog input)
 	waitTask atomic.Int32
@@ -421,7 +439,11 @@ func (s *Sim) onEvent(kind int, a uint64, nav *world.Nav) {
 	// around the real operation (a release has already happened when it is
 	// announced), and an abort raised there would leave the lock model out of
 	// step with the real locks and turn into a false deadlock verdict later.
-	if e.Steps > e.Budget && (nav != nil || kind == vs.EvEnter || kind == evLoadIn || kind == evLoadMid) {
+	if (nav != nil || kind == vs.EvEnter || kind == evLoadIn || kind == evLoadMid) && (e.Steps > e.Budget || (t != nil && s.cutoff.Load())) {
+		if e.Steps <= e.Budget {
+			e.CutOff = true
+			panic(&Abort{Why: "race-cutoff"})
+		}
 		panic(&Abort{Why: "budget"})
 	}
 	if t == nil {
